@@ -37,7 +37,7 @@ MANIFEST = {
 TYPES = ('list', 'tuple', 'dict', 'set')
 
 
-def specs(k, scalars, maxslots=2):
+def specs(k, scalars, maxslots=2, types=None):
     """All graphs: tuple of (type, slots) where a slot is ('s', scalar) or ('e', j); every container reachable from 0."""
     def slot_options(typ):
         opts = [('s', s) for s in scalars]
@@ -46,7 +46,7 @@ def specs(k, scalars, maxslots=2):
         return opts
 
     per = []
-    for typ in TYPES:
+    for typ in (types or TYPES):
         for n in range(0, maxslots + 1):
             for slots in itertools.product(slot_options(typ), repeat=n):
                 if typ == 'set' and len({v for _, v in slots}) != len(slots):
@@ -158,6 +158,44 @@ def expected(spec, i=0, depth=0):
     return Bag(vals)
 
 
+CYCLE = '<cycle>'
+
+
+def expected_with_placeholders(spec, i=0, stack=()):
+    """The original with every back edge (edge to a container that is being expanded) replaced by a placeholder."""
+    typ, slots = spec[i]
+    vals = []
+    for kind, v in slots:
+        if kind == 's':
+            vals.append(v)
+        elif v == i or v in stack:
+            vals.append(CYCLE)
+        else:
+            vals.append(expected_with_placeholders(spec, v, stack + (i,)))
+    if typ in ('list', 'tuple'):
+        return vals
+    if typ == 'dict':
+        return {f'k{n}': v for n, v in enumerate(vals)}
+    return Bag(vals)
+
+
+def plain_with_placeholders(tree):
+    from graphtage.builder import CyclicReference
+    import graphtage
+    if isinstance(tree, CyclicReference):
+        return CYCLE
+    if isinstance(tree, graphtage.KeyValuePairNode):
+        from mc.gen import Pair
+        return Pair(plain_with_placeholders(tree.key), plain_with_placeholders(tree.value))
+    if isinstance(tree, graphtage.MappingNode):
+        return {plain(k.key): plain_with_placeholders(k.value) for k in tree}
+    if isinstance(tree, graphtage.MultiSetNode):
+        return Bag([plain_with_placeholders(c) for c in tree])
+    if isinstance(tree, graphtage.ListNode):
+        return [plain_with_placeholders(c) for c in tree._children]
+    return plain(tree)
+
+
 def has_set(spec):
     return any(t == 'set' for t, _ in spec)
 
@@ -182,6 +220,33 @@ class Holder:
     def __init__(self, target):
         self.target = target
         self.n = 1
+
+
+class Rec:
+    pass
+
+
+def make_rec(attrs):
+    r = Rec()
+    for k, v in attrs.items():
+        setattr(r, k, v)
+    return r
+
+
+REC_ATTRS = [{'x': 1}, {'x': 1, 'y': 2}, {'y': [1]}, {}, {'x': 'a', 'z': None}]
+
+
+def rec_history_eval(first, second):
+    """Convert two instances of one class, with different attribute sets, one after the other (pristine fork)."""
+    from graphtage import pydiff
+    from mc.script import plain as _plain
+    pydiff.build_tree(make_rec(REC_ATTRS[first]))
+    obj = make_rec(REC_ATTRS[second])
+    tree = pydiff.build_tree(obj)
+    got = {}
+    for kvp in tree.attrs:
+        got[_plain(kvp.key)] = _plain(kvp.value)
+    return got
 
 
 ENTRY = ('json', 'basic', 'pydiff')
@@ -254,6 +319,15 @@ def evaluate(spec, wrap):
                             fails.setdefault(f'cycle_not_ignored {type(err).__name__} @ {site_of(err)} : {entry}, wrap={wrap}', f'{tag}: {err!r}')
                         elif not contains_cyclic_reference(tree):
                             fails.setdefault(f'no_placeholder_for_ignored_cycle @ {entry} : wrap={wrap}', tag)
+                        elif not wrap:
+                            try:
+                                got = plain_with_placeholders(tree)
+                                want = expected_with_placeholders(spec)
+                                if canon(got) != canon(want):
+                                    fails.setdefault(f'tree_with_ignored_cycle_differs_from_original @ {entry} : dict={ds}',
+                                                     f'{tag}: expected {want!r}, tree {got!r}')
+                            except Exception as e:  # noqa
+                                fails.setdefault(f'tree_unreadable {type(e).__name__} @ {entry} : ignored cycle', f'{tag}: {e!r}')
                         outs.add(h((entry, 'ignored')))
                     else:
                         if err is None:
@@ -316,7 +390,9 @@ def all_specs(tier):
     yield from specs(2, (1, 1.5, True, 'a', None) if not q else (1, 'a', None))
     if q:
         yield from specs(3, (1,), maxslots=1)
+        yield from specs(3, (1,), maxslots=2, types=('list',))
     else:
+        yield from specs(3, (1, 'a'), maxslots=2, types=('list', 'dict'))
         yield from specs(3, (1,), maxslots=2)
         yield from specs(4, (1,), maxslots=1)
 
@@ -349,6 +425,23 @@ def _shard(i, n, tier, payload):
         if idx % 4999 == 0 and len(r.samples) < 4:
             r.samples.append({'graph': [[t, [list(s) for s in slots]] for t, slots in spec], 'class': c, 'wrapped_in_object': wrap})
     r.extra['graphs_by_class'] = kinds
+    # custom objects: every ordered pair of attribute sets, each sequence in a pristine forked process
+    from props.c07_pure import in_fresh_child
+    j = 0
+    for a in range(len(REC_ATTRS)):
+        for b in range(len(REC_ATTRS)):
+            if j % n == i:
+                res = in_fresh_child(lambda ab: rec_history_eval(*ab), (a, b))
+                r.evaluations += 1
+                want = REC_ATTRS[b]
+                if res[0] != 'ok':
+                    r.fail(f'custom_object_conversion_raised @ pydiff.build_tree : second instance of a class', {'rec': [a, b]}, str(res[1]), order=10 ** 8 + j)
+                elif canon(res[1]) != canon(want):
+                    r.fail(f'custom_object_attributes_differ @ pydiff.build_tree : second instance of a class with other attributes',
+                           {'rec': [a, b]}, f'after converting Rec{REC_ATTRS[a]}: Rec{want} became attributes {res[1]!r}', order=10 ** 8 + j)
+                else:
+                    r.outcomes.add(h(('rec', a, b)))
+            j += 1
     return r
 
 
@@ -357,6 +450,15 @@ def run(ctx):
 
 
 def replay(case):
+    if 'rec' in case:
+        from props.c07_pure import in_fresh_child
+        a, b = case['rec']
+        res = in_fresh_child(lambda ab: rec_history_eval(*ab), (a, b))
+        if res[0] != 'ok':
+            return {'key': 'custom_object_conversion_raised @ pydiff.build_tree : second instance of a class', 'detail': str(res[1])}
+        if canon(res[1]) != canon(REC_ATTRS[b]):
+            return {'key': 'custom_object_attributes_differ @ pydiff.build_tree : second instance of a class with other attributes', 'detail': repr(res[1])}
+        return None
     spec = tuple((t, tuple(tuple(s) for s in slots)) for t, slots in case['spec'])
     _, fails, _ = evaluate(spec, case['wrap'])
     for f in fails:
